@@ -33,7 +33,7 @@ def run(ctx):
     if not can_run:
         common.broken_without_input(ctx, "build", ctx.notes[-1] if ctx.notes else "")
         return
-    stores = generic.stores_for(ctx, dict(conforming=60, flow=60, random=60, injected=40, handlers=30, stack=30, csrmem=60))
+    stores = generic.stores_for(ctx, dict(conforming=60, flow=60, random=60, injected=40, handlers=30, stack=30, csrmem=60, cutflow=40, cutinjected=20))
     sb = [(f, b) for f, b, _ in stores]
     impl, model = lib.run_pair_with_picks(ctx, lambda p, x: lib.store_cmd("yaml %s" % p, x[0], x[1]), sb, tag="yaml")
     raw = lib.run_impl(ctx, [lib.store_cmd("yaml -", f, b) for f, b in sb], tag="yaml-rt")
